@@ -48,7 +48,7 @@ def allowed(site, setters):
     if site["function"].endswith("awkward_transform.__call__.transformer") and text.startswith("options.pop('broadcast_parameters_rule'"):
         return ("ak.transform callback: `options` is the per-call options dict that awkward's broadcasting machinery builds and hands to the callback "
                 "(library-internal state of that one call, never an operand or a caller-visible object)")
-    why = EF.consumes_callers_own_container(site)
+    why = EF.consumes_callers_own_container(site) or EF.per_call_helper_object(site)
     if why:
         return why
     if fn == "__array_ufunc__" and text.startswith("output["):
